@@ -1,7 +1,7 @@
 (* ConcStatic.v — from the boolean checks on a method table to facts about the programs threads run. *)
 From Coq Require Import List Bool Arith PeanoNat Lia.
 Import ListNotations.
-From BWConc Require Import Conc.
+From BWConc Require Import Conc ConcStruct.
 
 (* ------------------------------------------------------------------ small boolean equalities *)
 Lemma mode_eqb_eq a b : mode_eqb a b = true <-> a = b.
@@ -177,13 +177,26 @@ Qed.
 Lemma locks_ok_path M p : locks_ok M = true -> path_in M p -> path_locks_ok (mt_guard M) p = true.
 Proof.
   intros H [m [Hm Hp]]. unfold locks_ok in H. rewrite forallb_forall in H.
-  specialize (H m Hm). rewrite forallb_forall in H. apply H. exact Hp.
+  specialize (H m Hm). apply andb_true_iff in H. destruct H as [H1 H2]. destruct Hp as [Hp|Hp].
+  - rewrite forallb_forall in H1. apply H1. exact Hp.
+  - apply (body_locks_sound (mt_guard M) m p H2 Hp).
 Qed.
 
 Lemma params_ok_path M p : params_ok M = true -> path_in M p -> path_params_ok p = true.
 Proof.
   intros H [m [Hm Hp]]. unfold params_ok in H. rewrite forallb_forall in H.
-  specialize (H m Hm). rewrite forallb_forall in H. apply H. exact Hp.
+  specialize (H m Hm). apply andb_true_iff in H. destruct H as [H1 H2]. destruct Hp as [Hp|Hp].
+  - rewrite forallb_forall in H1. apply H1. exact Hp.
+  - apply (body_params_sound (mt_guard M) m p H2 Hp).
+Qed.
+
+Lemma close_ok_path M m p : close_ok M = true -> In m (mt_methods M) ->
+  (In p (m_paths m) \/ unf (m_body m) p true) -> path_close_ok (m_chan m) p = true.
+Proof.
+  intros H Hm Hp. unfold close_ok in H. rewrite forallb_forall in H.
+  specialize (H m Hm). apply andb_true_iff in H. destruct H as [H1 H2]. destruct Hp as [Hp|Hp].
+  - rewrite forallb_forall in H1. apply H1. exact Hp.
+  - apply (body_close_sound (mt_guard M) m p H2 Hp).
 Qed.
 
 Definition calls_of (M : mtable) (cs : list call) : Prop := Forall (fun c => path_in M (c_path c)) cs.
